@@ -57,7 +57,7 @@ Definition float_repr (n : num) : result ustr :=
           else
             let e := (pt - 1)%Z in
             let mant := match digits with
-                        | d :: [] => [d]
+                        | d :: [] => [d; 46; 48]%N          (* FloatLiteral.__str__ adds ".0" *)
                         | d :: rest => d :: 46%N :: rest
                         | [] => []
                         end in
